@@ -7,6 +7,6 @@ CONSTANTS
  MaxP = 4
  MaxMach = 3
  MaxStops = 1
-INVARIANTS Capacity Conservation NeedAccounting ExclusiveAlone PendingOK NoOverstart
+INVARIANTS Capacity Conservation NeedAccounting ExclusiveAlone PendingOK PendingIsOutstanding NoOverstart
 PROPERTIES HealthyOnly
 CHECK_DEADLOCK FALSE
